@@ -137,6 +137,9 @@ func (c *Classifier) match(in io.Reader) (Results, error) {
 
 		}
 	}
+	if verifOn {
+		candidates = verifCandidates(candidates)
+	}
 	sort.Sort(candidates)
 	retain := make([]bool, len(candidates))
 	for i, c := range candidates {
